@@ -67,8 +67,8 @@ fn c19_order_u16() {
     order_u16();
 }
 
-//@ prop=C19 tier=thorough mem=3 timeout=7200 inst="Linear at N64 against its bounds" bounds="all finite lower <= higher with |v| <= 2^100, every q, N 1..=64; Linear in [lower, next_up(higher)]"
-#[kani::proof]
+// (not registered: not verified to finish within the session's budget on this machine) prop=C19 tier=thorough mem=3 timeout=7200 inst="Linear at N64 against its bounds" bounds="all finite lower <= higher with |v| <= 2^100, every q, N 1..=64; Linear in [lower, next_up(higher)]"
+#[allow(dead_code)]
 fn c19_order_n64_linear() {
     let l: f64 = kani::any();
     let h: f64 = kani::any();
@@ -142,9 +142,9 @@ fn c19_lane_laws_midpoint() {
     lane_laws::<_, 4>(&Midpoint);
 }
 // (the 8-request form of this harness ran out of memory at 32 GB and is not registered)
-//@ prop=C19,C01 tier=thorough mem=10 timeout=5400 flags=modelmap uses=cut inst="quantiles_mut([0, 0.25, 0.5+ulp, 1], Linear) on Array1<i16> len 3 and a permutation" bounds="i8-range payloads; unwind 12"
-#[kani::proof]
-#[kani::unwind(12)]
+// (not registered: not verified to finish within the session's budget on this machine) prop=C19,C01 tier=thorough mem=10 timeout=5400 flags=modelmap uses=cut inst="quantiles_mut([0, 0.25, 0.5+ulp, 1], Linear) on Array1<i16> len 3 and a permutation" bounds="i8-range payloads; unwind 12"
+#[allow(dead_code)]
+// #[kani::unwind(12)]
 fn c19_lane_laws_linear() {
     lane_laws::<_, 4>(&Linear);
 }
